@@ -67,6 +67,11 @@ def setup():
 
 
 QUERIES = ("find", "contains", "len")
+# other layouts a FileSet object may have been created for
+DECOYS = ["elsewhere/{year}/{month}/{day}/{hour}{minute}{second}_",
+          "elsewhere/{year}/{doy}/x{hour}_",
+          "elsewhere/flat_{year}{month}{day}{hour}{minute}{second}-{end_hour}{end_minute}_",
+          "elsewhere/{year}/{month}/m{day}{hour}{minute}{second}_"]
 
 
 def gen_workload(tape):
@@ -138,6 +143,10 @@ def gen_workload(tape):
         if a is not None and b is not None:
             w["exclude_periods"].append(sorted([a, b]))
     w["exclude_via"] = tape.pick(["ctor", "methods"], "exvia")
+    # 0: the FileSet is constructed on its template; k: on decoy layout k and
+    # then re-pointed with `fileset.path = template`
+    w["path_setter"] = tape.choice(1 + len(DECOYS), "path_setter") \
+        if tape.flag("via_path_setter", 1, 5) else 0
     # two caller threads share the FileSet: consecutive queries run as two
     # simulated tasks with line pre-emption inside typhon.files.fileset
     w["two_callers"] = w["backend"] == "sim" and tape.flag("two_callers", 1, 6)
@@ -283,9 +292,22 @@ class Run:
         ex_periods = [tuple(p) for p in self.ex_periods()]
         if w["exclude_via"] == "ctor":
             kw["exclude"] = ex_names + ex_periods
-        self.fs = FileSet(tmpl, name="S",
+        decoy = DECOYS[w["path_setter"] - 1] if w.get("path_setter") else None
+        if decoy is not None:
+            # the decoy carries the same user placeholders as the real template
+            # (an assignment keeps the placeholders of the old path registered;
+            # see DESIGN.md, observations)
+            decoy += ("{sat}" if F.uses_sat(self.t) else "x") + \
+                ("-{mode}" if self.t.get("mode_in_name") else "")
+        self.fs = FileSet(tmpl if decoy is None else self.be.root + "/" + decoy,
+                          name="S",
                           time_coverage=timedelta(seconds=self.tcov) if self.tcov else None,
                           **kw)
+        if decoy is not None:
+            # the object was created for another layout and is re-pointed:
+            # nothing of the old template may survive the assignment
+            self.fs.path = tmpl
+            self.probe("fileset_repointed_by_path_assignment")
         if w["exclude_via"] == "methods":
             self.fs.exclude_files(ex_names)
             self.fs.exclude_times(ex_periods)
